@@ -42,6 +42,8 @@ type Universe struct {
 	BigBits uint
 	// Unique makes every honest checkpoint carry a unique extension line.
 	Unique bool
+	// Lazy: the root index is filled as roots are computed (large size ranges).
+	Lazy bool
 	// Foreign keys: never configured anywhere.
 	Foreign []*refnote.SignKey
 }
@@ -79,7 +81,7 @@ var originShapes = []string{
 
 // NewUniverse draws a universe.
 func NewUniverse(r *rand.Rand, o Opts) *Universe {
-	u := &Universe{MaxSize: o.MaxSize, Big: o.Big, BigBits: o.BigBits, Unique: o.Unique}
+	u := &Universe{MaxSize: o.MaxSize, Big: o.Big, BigBits: o.BigBits, Unique: o.Unique, Lazy: o.Big || o.MaxSize > 64}
 	if o.Branches < 1 {
 		o.Branches = 1
 	}
@@ -108,7 +110,7 @@ func NewUniverse(r *rand.Rand, o Opts) *Universe {
 			}
 			l.Branches = append(l.Branches, t)
 		}
-		if !o.Big {
+		if !u.Lazy {
 			for b, t := range l.Branches {
 				for s := uint64(0); s <= o.MaxSize; s++ {
 					rt := t.Root(s)
@@ -142,7 +144,7 @@ func (u *Universe) bigSize(r *rand.Rand) uint64 {
 // Root returns the root of (branch,size) and remembers it for Lookup.
 func (l *Log) Root(b int, size uint64) []byte {
 	rt := l.Branches[b].Root(size)
-	if l.U.Big {
+	if l.U.Lazy {
 		l.mu.Lock()
 		k := string(rt[:])
 		found := false
